@@ -106,8 +106,9 @@ func (p *ReadProgress) Feed(n int) {
 }
 
 func (p *ReadProgress) Current() (n int) {
-	p.lastCurrent = p.readBytes - p.lastCurrent
-	return p.lastCurrent
+	n = p.readBytes - p.lastCurrent
+	p.lastCurrent = p.readBytes
+	return n
 }
 
 func (p *ReadProgress) Reset() {
